@@ -80,6 +80,58 @@ theorem marksList_reverse (a : List Loc) :
     simp only [List.reverse_cons, marksList_append, mswap_mcomb, ih, List.map_cons, marksList_cons,
       marksList_nil, mcomb_none_right, marks_compl]
 
+/-! ### range well-formedness (all that the marker laws need) -/
+
+mutual
+/-- every `Ranged` has `Start < End` (weaker than `wf`: says nothing about `Ambiguous`, whose
+`Len()` is 1 whatever its bounds) -/
+def rwf : Loc → Bool
+  | ranged s e _ _ => decide (s < e)
+  | joined ls => rwfList ls
+  | ordered ls => rwfList ls
+  | compl l => rwf l
+  | _ => true
+def rwfList : List Loc → Bool
+  | [] => true
+  | l :: ls => rwf l && rwfList ls
+end
+
+@[simp] theorem rwfList_nil : rwfList [] = true := by simp [rwfList]
+@[simp] theorem rwfList_cons (l : Loc) (ls : List Loc) : rwfList (l :: ls) = (rwf l && rwfList ls) := by
+  simp [rwfList]
+
+theorem rwfList_append (a b : List Loc) : rwfList (a ++ b) = (rwfList a && rwfList b) := by
+  induction a with
+  | nil => simp
+  | cons x xs ih => simp [ih, Bool.and_assoc]
+
+theorem rwfList_reverse (a : List Loc) : rwfList a.reverse = rwfList a := by
+  induction a with
+  | nil => simp
+  | cons x xs ih => simp [rwfList_append, ih, Bool.and_comm]
+
+mutual
+theorem rwf_of_wf : ∀ (l : Loc), wf l = true → rwf l = true
+  | between _, _ => by simp [rwf]
+  | point _, _ => by simp [rwf]
+  | ranged s e a b, h => by simpa [rwf, wf] using h
+  | ambiguous _ _, _ => by simp [rwf]
+  | joined ls, h => by simpa [rwf] using rwfList_of_wfList ls (by simpa [wf] using h)
+  | ordered ls, h => by simpa [rwf] using rwfList_of_wfList ls (by simpa [wf] using h)
+  | compl l, h => by simpa [rwf] using rwf_of_wf l (by simpa [wf] using h)
+theorem rwfList_of_wfList : ∀ (ls : List Loc), wfList ls = true → rwfList ls = true
+  | [], _ => by simp
+  | l :: ls, h => by
+      simp only [wfList_cons, Bool.and_eq_true] at h
+      simp [rwf_of_wf l h.1, rwfList_of_wfList ls h.2]
+end
+
+theorem inner_rwf (j : List Loc) (h : rwfList j = true) : rwf (ofParts j) = true := by
+  match j, h with
+  | [], _ => simp [ofParts, rwf]
+  | [a], h => simpa [ofParts] using h
+  | a :: b :: r, h => simpa [ofParts, rwf] using h
+
 /-! ### `outerMarks` is `marks` -/
 
 /-- the markers of a list of residue-bearing leaves in reading order -/
